@@ -54,7 +54,7 @@ ASSUMPTIONS = [
     "the exhaustive configuration space is formats {.mha,.mhd,.nii,.nii.gz,.nrrd} x D {2,3} x channels {1,2,3} x dtypes "
     "{uint8,int16,int32,float32,float64} x compress {True,False}; each configuration gets random oriented anisotropic grids",
     "an exception raised for a supported format is a violation (DESIGN 5.0 I-1)",
-    "NIfTI cannot distinguish a trailing axis of size 1 from a missing axis; grids have >= 2 samples per axis in NIfTI cases",
+    "NIfTI cannot distinguish a trailing axis of size 1 from a missing axis; all generated grids have >= 2 samples per axis",
 ]
 TRUSTED = [
     "Model/{MetaImage,Nifti}.lean hand transcription of utils/imageio/meta.py, nifti.py, utils/simpleitk/torch.py (axis "
@@ -65,14 +65,6 @@ RULE = ("exhaustive enumeration of format x D x channels x dtype x compress (300
         "one (quick) or several (thorough) random oriented anisotropic grids per configuration from one PRNG seeded by "
         "VERIF_SEED; distinct after JSON canonicalisation; non-trivial = direction != identity or anisotropic spacing or "
         "off-centre")
-
-
-# Which code the model follows.  0 = the code as it stands in /repo (F-18a..d present).  When the repairs of
-# FINDINGS_C18.md are applied to /repo, set the corresponding entry to 1 (and mark the finding `fixed` in
-# known_findings.json): the streams then compare the repaired code with the `Fix.proposed` / `…Fixed` model.
-# VERIF_C18_FIXED=1 switches all three (used to validate the repaired model against a repaired scratch copy).
-_ALL = os.environ.get("VERIF_C18_FIXED", "0") == "1"
-MODEL_FIX = {"meta_read": int(_ALL), "nifti_read": int(_ALL), "nifti_write": int(_ALL)}
 
 
 def safe_line(fn):
@@ -314,7 +306,7 @@ def line_mha_read(c):
         p = _mha_file(c, td)
         with open(p, "rb") as f:
             lines, _ = lex_header(f.read())
-    return f"meta.read {MODEL_FIX['meta_read']} " + lines_arg(lines)
+    return "meta.read " + lines_arg(lines)
 
 
 def cmp_mha_read(c, r, out):
@@ -343,8 +335,8 @@ def cmp_mha_read(c, r, out):
     return None
 
 
-# ----------------------------------------------------------------------------------------------- stream: repaired reader vs ITK
-def impl_mha_read_fixed(c):
+# ----------------------------------------------------------------------------------------------- stream: native reader model vs ITK
+def impl_mha_read_itk(c):
     """reference: SimpleITK's reading of the same .mha file (independent of deepali)"""
     with tempfile.TemporaryDirectory() as td:
         p = _mha_file(c, td)
@@ -355,16 +347,11 @@ def impl_mha_read_fixed(c):
             "spacing": list(im.GetSpacing()), "direction": list(im.GetDirection())}
 
 
-@safe_line
-def line_mha_read_fixed(c):
-    return re.sub(r"^meta\.read [01] ", "meta.read 1 ", line_mha_read(c), count=1)
-
-
-def cmp_mha_read_fixed(c, r, out):
+def cmp_mha_read_itk(c, r, out):
     if isinstance(r, str):
         return f"reference {r}; model {out[:80]}"
     if proto.is_error(out):
-        return f"ITK reads the file, repaired-reader model gives {out}"
+        return f"ITK reads the file, reader model gives {out}"
     f = fields(out)
     if [int(v) for v in f["size"].split()] != r["size"] or int(f["channels"]) != r["channels"]:
         return f"size/channels {r['size']}/{r['channels']} vs model {f['size']}/{f['channels']}"
@@ -465,70 +452,100 @@ def impl_nifti_write(c):
     with tempfile.TemporaryDirectory() as td:
         p = os.path.join(td, "image" + c["fmt"])
         Image(data, grid).write(p, compress=c["compress"])
-        aff = np.asarray(nib.load(p).affine, dtype=np.float64)
-        return {"written": os.path.exists(p), "affine": aff.flatten().tolist()}
+        im = nib.load(p)
+        return {"affine": np.asarray(im.affine, dtype=np.float64).flatten().tolist(), "shape": [int(n) for n in im.shape],
+                "dim": [int(v) for v in im.header["dim"]], "intent": int(im.header["intent_code"]),
+                "dtype": str(im.get_data_dtype())}
 
 
 @safe_line
 def line_nifti_write(c):
-    _, grid = make_image(c)
-    return f"nifti.write{'_fixed' if MODEL_FIX['nifti_write'] else ''} {c['D']} {proto.grid(grid)}"
+    data, grid = make_image(c)
+    return f"nifti.write {c['D']} {proto.grid(grid)} {data.ndim} {proto.vec(list(data.shape))}"
 
 
 def cmp_nifti_write(c, r, out):
     if isinstance(r, str):
-        kind = ":".join(r.split(":")[:2])
-        return None if out == kind else f"impl {r}; model {out[:80]}"
+        return f"impl {r}; model {out[:80]}"
     if proto.is_error(out):
         return f"impl wrote the file, model {out}"
-    m = proto.parse_vec(out)
-    if len(m) != 16:
-        return f"impl wrote the file with a 4x4 affine, model hands nibabel {len(m)} entries"
+    f = fields(out)
     _, grid = make_image(c)
-    return close(r["affine"], m, GEO_RTOL, geo_scale(grid))
+    why = close(r["affine"], proto.parse_vec(f["affine"]), GEO_RTOL, geo_scale(grid))
+    if why:
+        return "affine: " + why
+    for k in ("shape", "dim"):
+        if [int(v) for v in f[k].split()] != r[k]:
+            return f"{k} {r[k]} vs model {f[k]}"
+    if int(f["intent"]) != r["intent"]:
+        return f"intent {r['intent']} vs model {f['intent']}"
+    if r["dtype"] != c["dtype"]:
+        return f"stored dtype {r['dtype']}"
+    return None
+
+
+# ----------------------------------------------------------------------------------------------- stream: NIfTI voxel layout
+def gen_nifti_layout(rng, tier):
+    for _ in range(_n(tier, 4, 60)):
+        for d, ch in itertools.product(DIMS, CHANNELS):
+            shape = [ch] + [rng.randint(2, 5) for _ in range(d)]
+            yield {"D": d, "C": ch, "shape": shape, "idx": [rng.randrange(n) for n in shape]}
+
+
+def impl_nifti_layout(c):
+    import nibabel as nib
+
+    shape = c["shape"]
+    t = torch.arange(int(np.prod(shape)), dtype=torch.int32).reshape(shape)
+    with tempfile.TemporaryDirectory() as td:
+        p = os.path.join(td, "image.nii")
+        write_image(t, Grid(size=shape[:0:-1]), p)
+        arr = np.asarray(nib.load(p).dataobj.get_unscaled())
+        back, _ = read_nifti_image(p)
+    return {"shape": list(arr.shape), "flat": arr.flatten().tolist(), "value": int(t[tuple(c["idx"])]),
+            "back_equal": bool(torch.equal(back, t))}
+
+
+@safe_line
+def line_nifti_layout(c):
+    return f"nifti.index {c['C']} {c['D']} {len(c['idx'])} {proto.vec(c['idx'])}"
+
+
+def cmp_nifti_layout(c, r, out):
+    if isinstance(r, str):
+        return f"impl {r}; model {out[:80]}"
+    if proto.is_error(out):
+        return f"model error {out}"
+    f = fields(out)
+    idx = [int(v) for v in f["idx"].split()]
+    if len(idx) != len(r["shape"]):
+        return f"nibabel array has shape {r['shape']}, model index {idx}"
+    off = 0
+    for n, i in zip(r["shape"], idx):
+        off = off * n + i
+    if r["flat"][off] != r["value"]:
+        return f"voxel at model index {idx} is {r['flat'][off]}, expected {r['value']}"
+    if [int(v) for v in f["back"].split()] != c["idx"]:
+        return f"model reader index {f['back']} vs {c['idx']}"
+    if not r["back_equal"]:
+        return "read_nifti_image does not return the written tensor"
+    return None
 
 
 # ----------------------------------------------------------------------------------------------- stream: NIfTI read
-def _fixed_affine(grid: Grid) -> np.ndarray:
-    """the 4x4 RAS affine of the repair proposed in FINDINGS_C18.md (numpy, float64 of the stored float32)"""
-    d = grid.ndim
-    a = np.eye(4)
-    a[:d, :d] = grid.direction().double().numpy() @ np.diag(grid.spacing().double().numpy())
-    a[:d, 3] = grid.origin().double().numpy()
-    a[:2] *= -1
-    return a
-
-
-def _nib_image(data: torch.Tensor, grid: Grid):
-    import nibabel as nib
-
-    d = grid.ndim
-    arr = np.transpose(data.numpy(), axes=tuple(reversed(range(data.ndim))))
-    if arr.shape[-1] == 1:
-        arr = arr[..., 0]
-    else:
-        arr = arr.reshape(arr.shape[:d] + (1,) * (4 - d) + arr.shape[d:])
-    im = nib.Nifti1Image(np.ascontiguousarray(arr), _fixed_affine(grid))
-    if arr.ndim > 4:
-        im.header.set_intent("vector")
-    return im
-
-
 def gen_nifti_read(rng, tier):
     for c in gen_configs(rng, _n(tier, 1, 10), formats=[".nii", ".nii.gz"], compress=(True,)):
-        for writer in ("sitk", "nibabel"):
+        for writer in ("sitk", "deepali"):
             yield dict(c, writer=writer)
 
 
 def _nifti_file(c, td) -> str:
-    import nibabel as nib
-
     data, grid = make_image(c)
     p = os.path.join(td, "image" + c["fmt"])
     if c["writer"] == "sitk":
         sitk.WriteImage(sitk_image(data, grid), p)
     else:
-        nib.save(_nib_image(data, grid), p)
+        Image(data, grid).write(p)
     return p
 
 
@@ -552,7 +569,7 @@ def line_nifti_read(c):
         pix = [float(v) for v in im.header["pixdim"][1:4]]
         aff = np.asarray(im.affine, dtype=np.float64)
         intent = int(im.header["intent_code"])
-    return (f"nifti.read {MODEL_FIX['nifti_read']} {proto.vec(dim)} {proto.vec(pix)} {proto.vec(aff.flatten().tolist())} {intent}")
+    return f"nifti.read {proto.vec(dim)} {proto.vec(pix)} {proto.vec(aff.flatten().tolist())} {intent}"
 
 
 def cmp_nifti_read(c, r, out):
@@ -576,59 +593,60 @@ def cmp_nifti_read(c, r, out):
     return None
 
 
-# ----------------------------------------------------------------------------------------------- stream: repaired NIfTI affine vs ITK
-def gen_nifti_fixed(rng, tier):
-    for _ in range(_n(tier, 10, 400)):
+# ----------------------------------------------------------------------------------------------- stream: written NIfTI affine vs ITK
+def gen_nifti_itk(rng, tier):
+    for _ in range(_n(tier, 12, 400)):
         d = rng.choice(DIMS)
-        yield {"D": d, "C": 1, "dtype": "float32", "grid": grid_spec(rng, d), "seed": rng.randrange(1 << 30),
-               "fmt": ".nii"}
+        yield {"D": d, "C": rng.choice(CHANNELS), "dtype": "float32", "grid": grid_spec(rng, d),
+               "seed": rng.randrange(1 << 30), "fmt": ".nii", "compress": True}
 
 
-def impl_nifti_fixed(c):
-    import nibabel as nib
-
+def impl_nifti_itk(c):
     data, grid = make_image(c)
     with tempfile.TemporaryDirectory() as td:
         p = os.path.join(td, "image.nii")
-        nib.save(_nib_image(data, grid), p)
+        Image(data, grid).write(p)
         im = sitk.ReadImage(p)      # independent reader: ITK geometry (LPS) of the file
-    return {"affine": _fixed_affine(grid).flatten().tolist(), "dim": im.GetDimension(), "size": list(im.GetSize()),
+    return {"dim": im.GetDimension(), "size": list(im.GetSize()), "channels": im.GetNumberOfComponentsPerPixel(),
             "origin": list(im.GetOrigin()), "spacing": list(im.GetSpacing()), "direction": list(im.GetDirection())}
 
 
 @safe_line
-def line_nifti_fixed(c):
-    _, grid = make_image(c)
-    return f"nifti.write_fixed {c['D']} {proto.grid(grid)}"
+def line_nifti_itk(c):
+    data, grid = make_image(c)
+    return f"nifti.write {c['D']} {proto.grid(grid)} {data.ndim} {proto.vec(list(data.shape))}"
 
 
-def cmp_nifti_fixed(c, r, out):
+def cmp_nifti_itk(c, r, out):
+    """ITK's geometry of the file vs the geometry the model reader derives from the model writer's affine
+    (origin = LPS-flipped last column, spacing = column norms, direction = columns / spacing)"""
     if isinstance(r, str):
-        return f"reference {r}; model {out[:80]}"
+        return f"impl {r}; model {out[:80]}"
     if proto.is_error(out):
         return f"model error {out}"
     _, grid = make_image(c)
+    d = grid.ndim
+    a = [float(v) for v in proto.parse_vec(fields(out)["affine"])]
+    a = np.array(a, dtype=np.float64).reshape(4, 4)
+    a[:2] *= -1
+    sp = np.sqrt((a[:d, :d] ** 2).sum(axis=0))
+    want = {"origin": a[:d, 3].tolist(), "spacing": sp.tolist(), "direction": (a[:d, :d] / sp).flatten().tolist()}
+    if r["dim"] != d or r["size"] != [int(n) for n in grid.size()] or r["channels"] != c["C"]:
+        return f"ITK reads dim {r['dim']} size {r['size']} components {r['channels']}"
     sc = geo_scale(grid)
-    why = close(r["affine"], proto.parse_vec(out), GEO_RTOL, sc)
-    if why:
-        return "affine: " + why
-    if r["dim"] != grid.ndim or r["size"] != [int(n) for n in grid.size()]:
-        return f"ITK reads dim {r['dim']} size {r['size']}"
-    for name, want, tol, s in (("origin", grid.origin(), GEO_RTOL, sc), ("spacing", grid.spacing(), GEO_RTOL, 1.0),
-                               ("direction", grid.direction().flatten(), NII_DIR_ATOL, 1.0)):
-        why = close(r[name], [Fraction(float(v)) for v in want], tol, s)
+    for name, tol, s in (("origin", GEO_RTOL, sc), ("spacing", GEO_RTOL, 1.0), ("direction", NII_DIR_ATOL, 1.0)):
+        why = close(r[name], [Fraction(v) for v in want[name]], tol, s)
         if why:
-            return f"ITK {name} of the file written with the repaired affine: {why}"
+            return f"ITK {name} of the written file vs model affine: {why}"
     return None
 
 
 # ----------------------------------------------------------------------------------------------- stream: flow vectors in files
-FLOW_FORMATS_OK = [".mhd", ".nrrd"]
 
 
 def gen_flow(rng, tier):
     for _ in range(_n(tier, 2, 50)):
-        for fmt, d, axes in itertools.product(FLOW_FORMATS_OK, DIMS, AXES):
+        for fmt, d, axes in itertools.product(FORMATS, DIMS, AXES):
             spec = grid_spec(rng, d)
             shape = spec["size"][::-1]
             yield {"fmt": fmt, "D": d, "axes": axes, "grid": spec, "seed": rng.randrange(1 << 30),
@@ -677,31 +695,37 @@ STREAMS = [
     Stream("mha_read", gen_mha_read, impl_mha_read, line_mha_read, cmp_mha_read, nontrivial=nontrivial, exhaustive=True,
            doc="native .mha reader (read_image) on files written by deepali and by SimpleITK vs model parse of the same "
                "header lines: size, channels, dtype, origin, spacing, direction, or the same exception class"),
-    Stream("mha_read_fixed", gen_mha_read, impl_mha_read_fixed, line_mha_read_fixed, cmp_mha_read_fixed,
+    Stream("mha_read_itk", gen_mha_read, impl_mha_read_itk, line_mha_read, cmp_mha_read_itk,
            nontrivial=nontrivial, exhaustive=True,
-           doc="model of the REPAIRED reader (Fix.proposed: reshape(NDims, NDims), integer channel count) on the same files "
-               "vs SimpleITK's reading of them (independent reference for what a MetaImage header means), all D x C x dtype"),
+           doc="model of the native reader on the same files vs SimpleITK's reading of them (independent reference for "
+               "what a MetaImage header means), all D x C x dtype x compress x writer"),
     Stream("shuffle", gen_shuffle, impl_shuffle, line_shuffle, cmp_shuffle, exhaustive=True,
            doc="channel-axis shuffle at its three call sites (write_meta_image raw bytes, image_from_tensor, "
                "tensor_from_image) vs model index permutation and row-major offset, D x C exhaustive, random sizes/indices"),
     Stream("nifti_write", gen_nifti_write, impl_nifti_write, line_nifti_write, cmp_nifti_write, nontrivial=nontrivial,
-           exhaustive=True, doc="Image.write(.nii/.nii.gz) vs model (affine shape check of nibabel) for every D x C x dtype"),
+           exhaustive=True,
+           doc="what Image.write(.nii/.nii.gz) stores (nibabel: affine, array shape, header dim, intent code, dtype) vs "
+               "model writeAffine / toNiftiOrder / headerDim / writeIntent, every D x C x dtype"),
+    Stream("nifti_layout", gen_nifti_layout, impl_nifti_layout, line_nifti_layout, cmp_nifti_layout, exhaustive=True,
+           doc="position of a voxel in the nibabel array of a written file vs model index map, and the reader's way back; "
+               "D x C exhaustive, random sizes/indices"),
     Stream("nifti_read", gen_nifti_read, impl_nifti_read, line_nifti_read, cmp_nifti_read, nontrivial=nontrivial,
            exhaustive=True,
-           doc="read_nifti_image on files written by SimpleITK and by nibabel (layout of the proposed repair) vs model "
-               "applied to the header fields nibabel reports: D, size, tensor shape, origin, spacing, direction or error"),
-    Stream("nifti_fixed", gen_nifti_fixed, impl_nifti_fixed, line_nifti_fixed, cmp_nifti_fixed, nontrivial=nontrivial,
-           doc="model of the repaired writer's 4x4 affine vs numpy, and ITK's reading of a file written with it vs the grid "
-               "(validates the LPS<->RAS convention of Model/Nifti.lean against an independent reader)"),
+           doc="read_nifti_image on files written by SimpleITK and by deepali vs model applied to the header fields nibabel "
+               "reports: D, size, tensor shape, origin, spacing, direction"),
+    Stream("nifti_itk", gen_nifti_itk, impl_nifti_itk, line_nifti_itk, cmp_nifti_itk, nontrivial=nontrivial,
+           doc="ITK's reading (dimension, size, components, origin, spacing, direction) of a file written by deepali vs "
+               "the model writer's affine (validates the LPS<->RAS convention against an independent reader)"),
     Stream("flow_world", gen_flow, impl_flow, line_flow, cmp_flow, nontrivial=nontrivial, exhaustive=True,
            doc="vectors found in a file written by FlowField.write (read with SimpleITK) vs model Grid.transformVectors "
-               "axes->world, for .mhd/.nrrd x D x all four axes"),
+               "axes->world, for all five formats x D x all four axes"),
 ]
 
 
 # =============================================================================================== property oracles
 def _exc_key(oracle: str, c: dict, stage: str, e: Exception) -> Tuple[str, str]:
-    """specific key of an exception; the recorded defects are recognised by their exact signature only"""
+    """specific key of an exception; a regression of one of the repaired defects F-18a..d gets its original key
+    (the entries in known_findings.json are `fixed`, i.e. they suppress nothing)"""
     fmt, d, ch, msg = c["fmt"], c["D"], c.get("C", c["D"]), str(e)
     what = f"{oracle}: {stage} {fmt} D={d} C={ch} dtype={c.get('dtype')} compress={c.get('compress')}: {type(e).__name__}: {msg[:120]}"
     if fmt in (".nii", ".nii.gz") and stage == "write" and isinstance(e, ValueError) and "Affine should be shape 4,4" in msg:
@@ -919,8 +943,8 @@ def check_flow_io(c):
     return None
 
 
-# ---- witnesses of the refuted Lean statements, replayed on the implementation (DESIGN 2.6 step 2)
-WITNESSES = {
+# ---- regression cases: the witnesses of the four repaired defects (F-18a..d); they must round-trip now
+REGRESSIONS = {
     # Props/C18.lean c18Witness2D
     "c18Witness2D": ("C18:mha:read-2d-transform-matrix",
                      {"fmt": ".mha", "D": 2, "C": 1, "dtype": "int16", "compress": False, "seed": 1,
@@ -946,27 +970,18 @@ WITNESSES = {
 
 
 def gen_witness(rng, tier):
-    for name in WITNESSES:
+    for name in REGRESSIONS:
         yield {"witness": name}
 
 
 def check_witness(c):
-    key, case = WITNESSES[c["witness"]]
-    r = check_from_sitk(case) if c["witness"] == "itk-vector-nifti" else check_roundtrip(case)
-    flag = {"c18Witness2D": "meta_read", "c18Witness3D2C": "meta_read", "exampleGrid.nii": "nifti_write",
-            "itk-vector-nifti": "nifti_read"}[c["witness"]]
-    if MODEL_FIX[flag]:
-        return r          # the model follows the repaired code: the witness must round-trip now
-    if r is None:
-        return (f"C18:witness:{c['witness']}:not-reproduced",
-                f"the witness of the refuted Lean statement no longer fails on the implementation: the model (or "
-                f"known_findings.json) is out of date")
-    return r
+    key, case = REGRESSIONS[c["witness"]]
+    return check_from_sitk(case) if c["witness"] == "itk-vector-nifti" else check_roundtrip(case)
 
 
 ORACLES = [
-    Oracle("witness", gen_witness, check_witness,
-           doc="witnesses of C18_*_refuted replayed on the implementation (they must fail there with the recorded key)"),
+    Oracle("regression", gen_witness, check_witness,
+           doc="the witnesses of the repaired defects F-18a..d (Props/C18.lean regression instances) must round-trip"),
     Oracle("roundtrip", gen_all, check_roundtrip, nontrivial=nontrivial,
            doc="Image.write -> Image.read for all 300 configurations: voxel bytes, dtype, channels, size, origin, spacing, direction"),
     Oracle("to_sitk", gen_all, check_to_sitk, nontrivial=nontrivial,
